@@ -696,10 +696,29 @@ func c06AuthPayload(rng *hx.Rng, table [][2]string, force int) ([]byte, string) 
 	}
 }
 
-func c06Hex(b []byte) string { return hx.Hex(b) }
+// payloads that occur in very many cases are named once per shard (case text is what costs time)
+var c06Named = map[string]string{}
+var c06NamedDefs []string
+
+func c06Name(b []byte) {
+	k := hex.EncodeToString(b)
+	if _, ok := c06Named[k]; ok || len(b) == 0 {
+		return
+	}
+	n := fmt.Sprintf("p%d", len(c06Named))
+	c06Named[k] = n
+	c06NamedDefs = append(c06NamedDefs, fmt.Sprintf("Definition %s := %s.", n, hx.Hex(b)))
+}
+
+func c06Hex(b []byte) string {
+	if n, ok := c06Named[hex.EncodeToString(b)]; ok {
+		return n
+	}
+	return hx.Hex(b)
+}
 
 func c06FrameTerm(f c06Frame) string {
-	return fmt.Sprintf("(%s, %s)", hx.NList([]uint64{uint64(f.ty), uint64(f.svc), uint64(f.obj), uint64(f.act), uint64(f.id)}), hx.Hex(f.payload))
+	return fmt.Sprintf("(%s, %s)", hx.NList([]uint64{uint64(f.ty), uint64(f.svc), uint64(f.obj), uint64(f.act), uint64(f.id)}), c06Hex(f.payload))
 }
 
 func c06ActionTerm(a c06Action) string {
@@ -707,7 +726,7 @@ func c06ActionTerm(a c06Action) string {
 	case 0:
 		f := a.frames[0]
 		return fmt.Sprintf("ASend %s %s %s", hx.N(uint64(a.conn)),
-			hx.NList([]uint64{uint64(f.ty), uint64(f.svc), uint64(f.obj), uint64(f.act), uint64(f.id)}), hx.Hex(f.payload))
+			hx.NList([]uint64{uint64(f.ty), uint64(f.svc), uint64(f.obj), uint64(f.act), uint64(f.id)}), c06Hex(f.payload))
 	case 1, 5:
 		var it []string
 		for _, f := range a.frames {
@@ -1005,23 +1024,23 @@ func (g *c06Gen) script() []c06Action {
 	return s
 }
 
-// a burst has one outcome only if no frame after an authenticate request depends on whether the
-// mailbox goroutine has handled that request yet: allow frames for other services only before
-// the first authenticate request of the burst
+// a burst has one outcome only if no event of the connection goroutine (a refusal closes the
+// stream) can race with an answer of service 0's mailbox goroutine to an earlier frame of the same
+// burst, and no frame depends on whether the mailbox goroutine has handled an earlier authenticate
+// request yet: once a frame for service 0 / object 0 is in the burst, only frames for service 0
+// may follow; a frame that is not a frame (the reader closes the stream) only comes first
 func c06BurstDeterministic(fs []c06Frame) bool {
-	seenAuth := false
+	seenMail := false
 	for i, f := range fs {
 		if !(f.ty >= 1 && f.ty <= 8) {
-			// the reader closes the stream at this frame while the consumer goroutine may still
-			// be answering the frames before it: one outcome only if it comes first
 			return i == 0
 		}
 		if !c06PassesFilter(f.ty) {
 			continue
 		}
-		if f.svc == 0 && f.obj == 0 && f.act == 8 {
-			seenAuth = true
-		} else if f.svc != 0 && seenAuth {
+		if f.svc == 0 && f.obj == 0 {
+			seenMail = true
+		} else if f.svc != 0 && seenMail {
 			return false
 		}
 	}
@@ -1052,9 +1071,13 @@ func runC06(res *hx.Result, rng *hx.Rng, tier string, outdir string) {
 		return
 	}
 	cases := hx.NewCases(outdir, "C06cases", "From QV Require Import Auth C06Run.", "mismatches cs", res, "cs", "ccase")
+	for _, b := range c06ExhaustivePayloads() {
+		c06Name(b)
+	}
+	cases.Extra = append(cases.Extra, c06NamedDefs...)
 	nscripts := 400
 	if tier == "thorough" {
-		nscripts = 20000
+		nscripts = 8000
 	}
 	runOne := func(table [][2]string, script []c06Action, tag string) {
 		obs := h.runScript(table, script)
@@ -1157,12 +1180,19 @@ func c06Fixed() []c06Scenario {
 
 // c06Exhaustive: all sequences of length <= 4 over a 9-frame alphabet on <= 2 connections
 // (the first frame always on connection 0).
+func c06ExhaustivePayloads() [][]byte {
+	return [][]byte{
+		c06Map(2, []c06Entry{{bus.KeyUser, c06VStr("nao")}, {bus.KeyToken, c06VStr("secret")}}),
+		c06Map(2, []c06Entry{{bus.KeyUser, c06VStr("nao")}, {bus.KeyToken, c06VStr("x")}}),
+		c06Map(1, []c06Entry{{bus.KeyState, c06VUint(3)}}),
+		c06Map(2, []c06Entry{{bus.KeyUser, c06VInt(3)}, {bus.KeyToken, c06VStr("secret")}}),
+	}
+}
+
 func c06Exhaustive(run func(table [][2]string, script []c06Action, tag string)) {
 	tb := [][2]string{{"nao", "secret"}}
-	good := c06Map(2, []c06Entry{{bus.KeyUser, c06VStr("nao")}, {bus.KeyToken, c06VStr("secret")}})
-	bad := c06Map(2, []c06Entry{{bus.KeyUser, c06VStr("nao")}, {bus.KeyToken, c06VStr("x")}})
-	forged := c06Map(1, []c06Entry{{bus.KeyState, c06VUint(3)}})
-	wrong := c06Map(2, []c06Entry{{bus.KeyUser, c06VInt(3)}, {bus.KeyToken, c06VStr("secret")}})
+	ps := c06ExhaustivePayloads()
+	good, bad, forged, wrong := ps[0], ps[1], ps[2], ps[3]
 	alpha := []c06Frame{
 		{ty: net.Call, svc: 0, obj: 0, act: 8, payload: good, desc: "auth:good"},
 		{ty: net.Call, svc: 0, obj: 0, act: 8, payload: bad, desc: "auth:bad-token"},
